@@ -673,6 +673,9 @@ class PDFPageInterpreter:
 
     def do_h(self) -> None:
         """Close subpath"""
+        if self.curpath and self.curpath[-1] == ("h",):
+            # closing a subpath that is already closed (re, h) does nothing
+            return
         self.curpath.append(("h",))
 
     def do_re(self, x: PDFStackT, y: PDFStackT, w: PDFStackT, h: PDFStackT) -> None:
